@@ -183,6 +183,9 @@ func (w *world) proj() map[string]any {
 	pkgs := []any{}
 	for _, kind := range []string{"Configuration", "Function", "Provider"} {
 		for _, u := range w.s.All(schema.GroupKind{Group: "pkg.crossplane.io", Kind: kind}) {
+			if u.GetName() == preloadedName {
+				continue // (part of the scenery: it is in the digest of the package objects, so it must stay untouched)
+			}
 			src, _, _ := unstructured.NestedString(u.Object, "spec", "package")
 			h, r, v := parseImage(src)
 			pkgs = append(pkgs, map[string]any{"k": absKind[kind], "n": u.GetName(), "h": h, "r": r, "v": v, "d": w.content(u)})
